@@ -21,6 +21,19 @@
                                                      e = mode,hosthex,porthex,schemehex|-,urlhosthex|-
     sortcheck <inputhex> <outputhex>               → true | false
     parseip <hex>                                  → ok <dotted/colon text hex> <isV4> | none
+
+  Decorated scripts (Model §10), five fields  <ex> <shadow> <prelude> <body> <dtree>:
+            ex = `0`/`1` (entry point is FindProxyForURLEx) · shadow = comma list `h<helper>,<val>…` (`~` = none)
+            prelude/body = comma list of statement tokens (`~` = none)
+              stmt = `A` x expr | `O` x val | `L` i n x expr      expr = `l` val | `g` x | `p` x k | `k` call
+            dtree = `I` cond dtree dtree | `R` val | `C` call | `S` call | `V` x (`R` val | `C` call | `S` call) | `G` x 0/1
+            reqs = `;`-list of `urlhex,hostArghex,urlHosthex`; answers without blanks: `ok:<hex>` `err:type` …
+    evald     <ds…> <reqs> <env…>   → load throw | load unmodelled | ok seq=<a;a…> poss=<a,a…;a,a…>
+                                       seq = a single resolver asked the requests one at a time; poss_i = its possible answers
+                                       to request i after any sub-sequence of the requests before it (Model `possibleAnswers`;
+                                       `~` when there are more than 6 requests)
+    evaldspec <ds…> <reqs> <env…>   → the same under the specified helper semantics (`na` for unmodelled)
+    evaldrep  <ds…> <req> <n> <env…> → load … | ok <a,a…>  the answers to req after 0…n earlier evaluations of req
 -/
 import FwdVerif.Spec.C14
 
@@ -199,6 +212,161 @@ def evalWith (spec : Bool) (fn fnEx url hostArg urlHost t m mx : String) : Strin
       else encAnswer (findProxy env tree r)
   | _, _, _, _, _, _ => "bad-op"
 
+
+/-! decorated scripts -/
+
+def decShadow (s : String) : Option (List (Helper × Val)) :=
+  let rec go : List String → Option (List (Helper × Val))
+    | [] => some []
+    | n :: v :: rest =>
+      match n.toList with
+      | 'h' :: r => do
+        let h ← helperOfName (String.ofList r)
+        let w ← decVal? v
+        let tl ← go rest
+        pure ((h, w) :: tl)
+      | _ => none
+    | [_] => none
+  go (splitList s)
+
+def decGExpr : List String → Option (GExpr × List String)
+  | "l" :: v :: r => (decVal? v).map fun w => (GExpr.lit w, r)
+  | "g" :: x :: r => x.toNat?.map fun n => (GExpr.glob n, r)
+  | "p" :: x :: k :: r => do
+    let n ← x.toNat?
+    let j ← k.toInt?
+    pure (GExpr.plus n j, r)
+  | "k" :: r => (decCall r).map fun (c, r') => (GExpr.call c, r')
+  | _ => none
+
+def decStmts : Nat → List String → Option (List Stmt)
+  | _, [] => some []
+  | 0, _ => none
+  | fuel + 1, "A" :: x :: r => do
+    let n ← x.toNat?
+    let (e, r') ← decGExpr r
+    let tl ← decStmts fuel r'
+    pure (Stmt.assign n e :: tl)
+  | fuel + 1, "O" :: x :: v :: r => do
+    let n ← x.toNat?
+    let w ← decVal? v
+    let tl ← decStmts fuel r
+    pure (Stmt.initOnce n w :: tl)
+  | fuel + 1, "L" :: i :: n :: x :: r => do
+    let i' ← i.toNat?
+    let n' ← n.toNat?
+    let x' ← x.toNat?
+    let (e, r') ← decGExpr r
+    let tl ← decStmts fuel r'
+    pure (Stmt.loop i' n' x' e :: tl)
+  | _, _ => none
+
+def decStmtList (s : String) : Option (List Stmt) :=
+  let ts := splitList s
+  decStmts (ts.length + 1) ts
+
+def decRetE : List String → Option (RetE × List String)
+  | "R" :: v :: r => (decVal? v).map fun w => (RetE.lit w, r)
+  | "C" :: r => (decCall r).map fun (c, r') => (RetE.call c, r')
+  | "S" :: r => (decCall r).map fun (c, r') => (RetE.strOf c, r')
+  | _ => none
+
+def decDTree : Nat → List String → Option (DTree × List String)
+  | 0, _ => none
+  | fuel + 1, t :: ts =>
+    if t = "I" then do
+      let (c, r1) ← decCond (fuel + 1) ts
+      let (a, r2) ← decDTree fuel r1
+      let (b, r3) ← decDTree fuel r2
+      pure (DTree.ite c a b, r3)
+    else if t = "V" then
+      match ts with
+      | x :: r => do
+        let n ← x.toNat?
+        let (e, r') ← decRetE r
+        pure (DTree.retVia n e, r')
+      | [] => none
+    else if t = "G" then
+      match ts with
+      | x :: b :: r => do
+        let n ← x.toNat?
+        let f ← boolOf b
+        pure (DTree.retGlob n f, r)
+      | _ => none
+    else (decRetE (t :: ts)).map fun (e, r) => (DTree.ret e, r)
+  | _ + 1, [] => none
+
+def decDScript (ex sh pre body tree : String) : Option DScript := do
+  let e ← boolOf ex
+  let s ← decShadow sh
+  let p ← decStmtList pre
+  let b ← decStmtList body
+  let ts := tree.splitOn ","
+  match decDTree (ts.length + 1) ts with
+  | some (t, []) => pure { ex := e, shadow := s, prelude := p, body := b, tree := t }
+  | _ => none
+
+def decReqs (s : String) : Option (List Req) :=
+  (splitList2 s).mapM fun e =>
+    match splitList e with
+    | [u, ha, uh] => do
+      let a ← bytesOfHex u
+      let b ← bytesOfHex ha
+      let c ← bytesOfHex uh
+      pure { url := a, hostArg := b, urlHost := c }
+    | _ => none
+
+/-- answers without blanks; under the specification "unmodelled" reads `na` -/
+def encAnswerC (spec : Bool) : Answer → String
+  | .ok s => s!"ok:{hexOfBytes s}"
+  | .errType => "err:type"
+  | .errNonAscii => "err:nonascii"
+  | .errThrow => "err:throw"
+  | .unmodelled => if spec then "na" else "unmodelled"
+
+/-- once an evaluation is outside the model the VM's state is unknown: every later answer is too -/
+def poison : List Answer → List Answer
+  | [] => []
+  | a :: rest => if a = .unmodelled then (a :: rest).map (fun _ => Answer.unmodelled) else a :: poison rest
+
+def prefixes {α : Type} : List α → List (List α)
+  | [] => [[]]
+  | x :: xs => [] :: (prefixes xs).map (x :: ·)
+
+def evaldWith (spec : Bool) (ex sh pre body tree reqs t m mx : String) : String :=
+  match decDScript ex sh pre body tree, decReqs reqs, decEnv t m mx with
+  | some ds, some rs, some env =>
+    let hc := if spec then specHc env else callHelper env
+    match loadD hc ds with
+    | (_, .throw) => "load throw"
+    | (_, .unmodelled) => "load unmodelled"
+    | (g0, .ok _) =>
+      let f := callD hc ds
+      let seq := poison (seqAnswers f g0 rs)
+      -- request i after any sub-sequence of requests 0 … i-1
+      -- (only for short histories: a history of n requests has 2^n sub-sequences)
+      let poss := if rs.length > 6 then [] else (List.range rs.length).map fun i =>
+        let ps := possibleAnswers f g0 (rs.take i) (rs.getD i ⟨[], [], []⟩)
+        -- an unmodelled evaluation anywhere in a candidate history makes the candidate set unknown
+        let bad := (subseqs (rs.take i)).any fun h => (seqAnswers f g0 h).contains .unmodelled
+        if bad then [Answer.unmodelled] else ps.eraseDups
+      let encL := fun (as : List Answer) => joinList (as.map (encAnswerC spec))
+      s!"ok seq={joinList2 (seq.map (encAnswerC spec))} poss={joinList2 (poss.map encL)}"
+  | _, _, _ => "bad-op"
+
+def evaldRep (ex sh pre body tree req n t m mx : String) : String :=
+  match decDScript ex sh pre body tree, decReqs req, n.toNat?, decEnv t m mx with
+  | some ds, some [q], some k, some env =>
+    let hc := callHelper env
+    match loadD hc ds with
+    | (_, .throw) => "load throw"
+    | (_, .unmodelled) => "load unmodelled"
+    | (g0, .ok _) =>
+      let as := seqAnswers (callD hc ds) g0 (List.replicate (k + 1) q)
+      if as.contains .unmodelled then "ok unmodelled"
+      else s!"ok {joinList (as.map (encAnswerC false))}"
+  | _, _, _, _ => "bad-op"
+
 def handle : List String → String
   | ["helper", name, args, t, m, mx] =>
     match helperOfName name, decArgs args, decEnv t m mx with
@@ -217,6 +385,9 @@ def handle : List String → String
     | _, _, _ => "bad-op"
   | ["eval", fn, fnEx, url, hostArg, urlHost, t, m, mx] => evalWith false fn fnEx url hostArg urlHost t m mx
   | ["evalspec", fn, fnEx, url, hostArg, urlHost, t, m, mx] => evalWith true fn fnEx url hostArg urlHost t m mx
+  | ["evald", ex, sh, pre, body, tree, reqs, t, m, mx] => evaldWith false ex sh pre body tree reqs t m mx
+  | ["evaldspec", ex, sh, pre, body, tree, reqs, t, m, mx] => evaldWith true ex sh pre body tree reqs t m mx
+  | ["evaldrep", ex, sh, pre, body, tree, req, n, t, m, mx] => evaldRep ex sh pre body tree req n t m mx
   | ["proxies", hx] =>
     match bytesOfHex hx with
     | none => "bad-op"
